@@ -121,15 +121,11 @@ inductive VErr where
   | panic (site : String)
   deriving Repr, BEq, DecidableEq
 
-/-- `drain(start,end)`: removed text and remaining graphemes; panics like the Rust on bad indices. -/
+/-- `drain(start,end)`: removed text and remaining graphemes. The range is clamped to the text first
+(since fix ccfba48; before, indices past the table or a reversed range panicked). -/
 def drainGs (gs : List Gr) (s e : Nat) : Except VErr (Str × List Gr) :=
-  if e = gs.length then
-    if s = gs.length then .ok ([], gs)
-    else if s > gs.length then .error (.panic "drain: start index out of range")
-    else .ok ((gs.drop s).flatten, gs.take s)
-  else if s ≥ gs.length ∨ e > gs.length then .error (.panic "drain: index out of range")
-  else if s > e then .error (.panic "drain: slice index starts after end")
-  else .ok (((gs.drop s).take (e - s)).flatten, gs.take s ++ gs.drop e)
+  .ok (((gs.drop (min s (min e gs.length))).take (min e gs.length - min s (min e gs.length))).flatten,
+       gs.take (min s (min e gs.length)) ++ gs.drop (min e gs.length))
 
 /-- `slice(s..e)` as used for yanks: `""` when the indices are not sliceable. -/
 def sliceOr (gs : List Gr) (s e : Nat) : Str := (sliceGs gs s e).getD []
